@@ -169,6 +169,16 @@ func (x *Run) enterBlock(fr *Frame, from, to *ssa.BasicBlock, st *State) []Outco
 	}
 	fr.prev = from
 	li := x.loops(fr.fn)
+	if from != nil {
+		for h, lp := range li.byHeader {
+			if fr.cut[h] && lp.blocks[from] && !lp.blocks[to] {
+				if fr.leftFrom == nil {
+					fr.leftFrom = map[*ssa.BasicBlock]*ssa.BasicBlock{}
+				}
+				fr.leftFrom[h] = from
+			}
+		}
+	}
 	if lp := li.byHeader[to]; lp != nil {
 		return x.enterLoopHeader(fr, from, to, st, lp)
 	}
@@ -902,6 +912,18 @@ func returnsFromLoop(lp *loop, b *ssa.BasicBlock, depth int) bool {
 	return true
 }
 
+// loopOwnExit: the header is the block in which go/ssa evaluates the loop's own
+// continuation test (range over slice / map / channel, or the condition of a
+// three-clause or while-style for); leaving the loop from there is the loop's
+// normal end. A bare `for { … }` has its first body block as header.
+func loopOwnExit(h *ssa.BasicBlock) bool {
+	switch h.Comment {
+	case "rangeindex.loop", "rangechan.loop", "rangeiter.loop", "for.loop":
+		return true
+	}
+	return false
+}
+
 func blockHasRunDefers(b *ssa.BasicBlock) bool {
 	for _, ins := range b.Instrs {
 		if _, ok := ins.(*ssa.RunDefers); ok {
@@ -920,6 +942,11 @@ func (x *Run) loopExitChecks(fr *Frame, st *State, b *ssa.BasicBlock) {
 	li := x.loops(fr.fn)
 	for _, lp := range li.byHeader {
 		if fr.cut[lp.header] && returnsFromLoop(lp, b, 0) {
+			// the loop's own end (range exhausted, channel closed, loop condition
+			// false) is not a return from inside the loop
+			if fr.leftFrom[lp.header] == lp.header && loopOwnExit(lp.header) {
+				continue
+			}
 			if ann := x.spec.loopAnn(fr.fn, lp.ordinal); ann != nil && ann.Exit != nil {
 				ea := &LoopAnn{Inv: ann.Exit, Args: ann.BodyArgs}
 				x.checkLoopInvExtra(fr, st, lp, ea, "exit", fr.loopHead[lp.header])
